@@ -181,6 +181,16 @@ def pick(F, test, st):
         test = test.operand
     if isinstance(test, ast.Name) and test.id == F.roles.depleted_var:
         return D != neg
+    if isinstance(test, ast.Compare) and len(test.ops) == 1 and isinstance(test.ops[0], (ast.Is, ast.IsNot)) \
+            and isinstance(test.comparators[0], ast.Constant) and test.comparators[0].value is None:
+        if isinstance(test.ops[0], ast.IsNot):
+            neg = not neg
+        if isinstance(test.left, ast.Constant):
+            return (test.left.value is None) != neg
+        if isinstance(test.left, ast.Name) and test.left.id == F.roles.byte_var:
+            return (B == "INIT") != neg  # the look-ahead variable is None exactly until the first pull
+        if isinstance(test.left, ast.Name) and test.left.id == F.roles.iter_var:
+            return neg
     return None
 
 
